@@ -308,7 +308,11 @@ class RoundGen:
         typ = node["type"]
         meta = self.meta.get(node["path"], {})
         if node["dims"] is not None or isinstance(node["value"], list):
-            shape = meta.get("shape") or DM.shape_of(node["value"]) or (2,)
+            shape = meta.get("shape") or DM.shape_of(node["value"])
+            if not shape:
+                # an array node that is none so far: any shape its bounds allow
+                shape = [max(lo or 1, 1) if hi is None else max(lo or 0, min(hi, 2))
+                         for lo, hi in (node["dims"] or [[2, 2]])]
             return self.array_value(typ, list(shape))
         if node["options"]:
             opts = [o for o in node["options"] if o is not None]
